@@ -119,12 +119,79 @@ def check_item(ctx, m, g):
             check_param_attrs(ctx, m, g, key0 + [kind, hs[0].fn], hs[0], fields, sf["de"].get("missing_field", set()), imp, None)
 
 
+def _split_top(s, sep=","):
+    parts, cur, depth, in_str = [], "", 0, False
+    for i, ch in enumerate(s):
+        if ch == '"' and (i == 0 or s[i - 1] != "\\"):
+            in_str = not in_str
+        if not in_str:
+            if ch in "([{":
+                depth += 1
+            elif ch in ")]}":
+                depth -= 1
+            elif ch == sep and depth == 0:
+                parts.append(cur)
+                cur = ""
+                continue
+        cur += ch
+    if cur.strip():
+        parts.append(cur)
+    return [x.strip() for x in parts]
+
+
+def _eval_cfg_pred(pred):
+    """cfg predicate (compact string) evaluated for the build the facts come from: the host target, not a test build"""
+    import platform
+    import re
+    pred = pred.strip()
+    mm = re.match(r"^(not|all|any)\((.*)\)$", pred, re.S)
+    if mm:
+        parts = [_eval_cfg_pred(x) for x in _split_top(mm.group(2))]
+        return {"not": lambda: not parts[0], "all": lambda: all(parts), "any": lambda: any(parts)}[mm.group(1)]()
+    mm = re.match(r'^([a-z_]+)="([^"]*)"$', pred)
+    if mm:
+        k, v = mm.groups()
+        if k == "target_arch":
+            return v == {"x86_64": "x86_64", "aarch64": "aarch64", "AMD64": "x86_64", "arm64": "aarch64"}.get(platform.machine(), platform.machine())
+        if k == "target_os":
+            return v == "linux"
+        if k == "target_family":
+            return v == "unix"
+    if pred == "test":
+        return False
+    if pred in ("unix", "debug_assertions"):
+        return True
+    if pred == "windows":
+        return False
+    raise G.Unrecognised(f"cfg predicate `{pred}` not evaluated by the model")
+
+
+def effective_attrs(attrs):
+    """attribute strings after the compiler's cfg_attr evaluation (what reaches the field of the generated type)"""
+    out = []
+    for a in attrs:
+        s = A.compact(a["path"] + ("(" + a["tokens"] + ")" if a["kind"] == "list" else ("=" + a["tokens"] if a["kind"] == "nv" else "")))
+        if a["path"] == "cfg_attr" and a["kind"] == "list":
+            parts = _split_top(A.compact(a["tokens"]))
+            if parts and _eval_cfg_pred(parts[0]):
+                out += parts[1:]
+            continue
+        out.append(s)
+    return out
+
+
 def check_param_attrs(ctx, m, g, key, h, fields, missing_field, impl, variant):
     for p in h.params:
         fl = fields.get(p["name"])
         if fl is None:
             continue
-        want = [A.compact(a["path"] + ("(" + a["tokens"] + ")" if a["kind"] == "list" else ("=" + a["tokens"] if a["kind"] == "nv" else ""))) for a in p["attrs"]]
+        try:
+            want = effective_attrs(p["attrs"])
+        except G.Unrecognised as e:
+            ctx.unrecognised("C17.field_attr", key + [p["name"]], C.where(m, fl), str(e))
+            continue
+        if any(a["path"] == "cfg_attr" for a in p["attrs"]):
+            ctx.tag("field.cfg_attr")
         have = attr_strings(fl)
         ctx.inst("C17.field_attr", distinct=(m.key, tuple(key), p["name"]))
         if p["attrs"]:
